@@ -31,6 +31,12 @@ def decide(triples):
             if not (ha or hk):
                 reqs.append('masknone %s %d %s' % (tok_sig(c.d), c.n, tok_names(c.names)))
                 meta.append((c, i, 'none'))
+            elif hk and not ha:
+                # the named arguments are themselves hidden: only the n positionals must fit
+                kinds = [q[1] for q in c.d['params']]
+                npos_ = len([k for k in kinds if k in ('PO', 'PK')])
+                if c.n <= npos_ or 'VP' in kinds:
+                    out.append((c, 'C03:raises', '%s raised ValueError although the signature can be passed %d positional arguments (the keyword arguments are hidden)' % (c.show(), c.n)))
             continue
         r = i[1]
         if any(c.flags):
